@@ -123,6 +123,15 @@ harnesses! {
         check!(!unsafe { UF_OVERFLOW }, "UF table large enough");
     }
 
+    /// S7 with credential identifiers longer than the hash output (8) and longer than a hash block (16): every byte counts
+    fn s7_oprf_key_from_seed_long_cred [unwind = 36] {
+        let seed = any_bytes::<8>();
+        let cred = any_bytes::<20>();
+        oprf_key_case(&seed, &cred[..9]);
+        oprf_key_case(&seed, &cred[..20]);
+        cover!(true, "reached");
+    }
+
     /// S8: mask_response == Expand(masking_key, nonce || "CredentialResponsePad") XOR (server_public_key || envelope)
     fn s8_mask_response [unwind = 46] {
         let mk = any_bytes::<8>();
